@@ -207,6 +207,30 @@ theorem per_key_in_order (c : Cfg) (hk : 1 ≤ c.k) (keys : List (Nat × Nat)) (
       exact itemIdx_length _ _ _
   simp [hemp, hscript]
 
+/-- `argv_depends_only_on_item`: the arguments `AddMulti` / `ExistsMulti` hand to the client are a
+function of the call's own keys and of (m, k) only — the same whatever the server state, whatever
+ran before and whatever other call on the same filter value is in flight — namely `k` followed by
+the `k` indexes of each key in input order; and the state change of `AddMulti` is the add script
+run on exactly these arguments. The `bloom` suite ties this to the code by comparing the argv the
+client consumed (also for a call parked while another one ran) with this argv. -/
+theorem argv_depends_only_on_item (c : Cfg) (keys : List (Nat × Nat)) (hne : keys ≠ []) (s s' : St) :
+    (addMultiTrace c keys s).2 = some (c.k :: (keys.map (itemIdx c.m c.k)).flatten) ∧
+    (addMultiTrace c keys s).2 = (addMultiTrace c keys s').2 ∧
+    (existsMultiTrace c keys s).2 = (addMultiTrace c keys s').2 ∧
+    (addMultiTrace c keys s).1 = addMulti c keys s ∧
+    addMulti c keys s = (addScript c.k (keys.map (itemIdx c.m c.k)).flatten s).1 := by
+  have hemp : keys.isEmpty = false := by
+    cases keys with
+    | nil => exact absurd rfl hne
+    | cons _ _ => rfl
+  simp [addMultiTrace, existsMultiTrace, addMulti, allIdx, hemp]
+
+/-- the argv of a multi-key call is the concatenation of the per-item index groups: an item's
+indexes do not depend on which other items travel in the same call -/
+theorem allIdx_append (m k : Nat) (a b : List (Nat × Nat)) :
+    allIdx m k (a ++ b) = allIdx m k a ++ allIdx m k b := by
+  simp [allIdx]
+
 /-- operations of a history -/
 inductive Op where
   | add (keys : List (Nat × Nat))
